@@ -73,8 +73,6 @@ def make_clean(rng, fs, gctx):
                 if m[0] == "method":
                     ps = []
                     for (dr, t, sh, pn) in m[2]:
-                        if t == "interface" and sh:
-                            continue
                         ps.append((dr, t, sh, pn))
                     # a small object-bearing struct that is bundled with another small value travels
                     # with its handle inside the data buffer (C02 K_interleave class): drop it there,
@@ -175,8 +173,8 @@ def file_facts(fs, gctx, path, deep=True):
 
 
 # (class, languages, predicate on facts (+ untyped flag), pattern on the diagnostic line)
+# (the C++ class for untyped object arrays is gone since its repair: such arrays are ProxyBase arrays)
 CLASSES = [
-    ("K_cpp_untyped_objarr", ("cpp",), lambda F, u: F["untyped_objarr"] or (u and F["objarr"]), r"has no member named '(get|consume)'|no member named '(get|consume)'|ProxyBase|Object"),
 ]
 
 
@@ -436,7 +434,7 @@ def witness_cases():
     W.append(("REGRESSION_base_list", ("cpp",), fs1([("iface", "IA", None, [("method", "ma", [], False, None)]), ("iface", "IB", "IA", [("method", "mb", [], False, None)]),
                                             ("iface", "IC", "IB", [("method", "mc", [("in", "uint32", None, "x")], False, None)]),
                                             ("iface", "ID", "IC", [("method", "md", [], False, None)])])))
-    W.append(("K_cpp_untyped_objarr", ("cpp",), fs1([("iface", "IW", None, [("method", "m", [("in", "interface", "[2]", "p0"), ("out", "interface", "[2]", "p1")], False, None)])])))
+    W.append(("REGRESSION_cpp_untyped_objarr", ("cpp",), fs1([("iface", "IW", None, [("method", "m", [("in", "interface", "[2]", "p0"), ("out", "interface", "[2]", "p1")], False, None)])])))
     W.append(("K_nested_obj_path", ("cpp",), fs1([("struct", "SO", [("interface", 1, "o"), ("uint64", 1, "a"), ("uint64", 1, "b")]),
                                                    ("struct", "SN", [("SO", 1, "x"), ("uint64", 1, "y"), ("uint64", 1, "z")]),
                                                    ("iface", "IW", None, [("method", "m", [("in", "SN", None, "p0"), ("out", "SN", None, "p1")], False, None)])])))
